@@ -37,55 +37,64 @@ OPTOK = ['-', '+', '~', '*', '/', '//', '%', '**', '<<', '>>', '|', '^', '&', '@
 
 
 # ---------------------------------------------------------------------------------------------- helpers on encodings
+def children(x: Any) -> List[Tuple[Any, bool]]:
+    """Direct sub-expressions of an encoded expression; the flag says: stands directly in a Subscript's slice position."""
+    t = x[0]
+    if t == 2:
+        return [(x[1], False)]
+    if t == 3:
+        return [(x[2], False)]
+    if t == 4:
+        return [(x[2], False), (x[3], False)]
+    if t == 5:
+        return [(v, False) for v in x[2]]
+    if t in (6, 7, 8):
+        return [(v, False) for v in x[1]]
+    if t == 9:
+        return [(k, False) for k, _ in x[1] if k is not None] + [(v, False) for _, v in x[1]]
+    if t == 10:
+        return [(x[1], False), (x[2], True)]
+    if t == 11:
+        return [(x[1], False)] + [(a, False) for a in x[2]] + [(v, False) for _, v in x[3]]
+    if t == 12:
+        return [(x[1], False)]
+    if t == 13:
+        g = x[1]
+        if g == 0:
+            return [(x[3], False)] + [(c, False) for c in x[4]]
+        if g == 1:
+            return [(x[2], False), (x[3], False), (x[4], False)]
+        if g == 2:
+            return [(x[3], False)]
+        if g == 3:
+            return [(b, False) for b in x[2:5] if b is not None]
+        if g in (4, 12):
+            return [(x[2], False)]
+        if g == 5:
+            return [(x[2], False)] if x[2] is not None else []
+        if g == 6:
+            return [(x[3], False)]
+        if g in (7, 8, 10):
+            return [(x[2], False), (x[3], False), (x[4], False)] + [(i, False) for i in x[5]]
+        if g == 9:
+            return [(p, False) for p in x[2] if not isinstance(p, str)]
+        if g == 11:
+            return [(x[2], False), (x[3], False), (x[4], False), (x[5], False)]
+    return []
+
+
 def walk(e: Any):
-    """Sub-expressions of an encoded expression (pre-order), with a flag: stands directly in a Subscript's slice position."""
+    """Sub-expressions (pre-order) with the slice-position flag."""
     stack = [(e, False)]
     while stack:
         x, in_slice = stack.pop()
         yield x, in_slice
-        t = x[0]
-        kids: List[Tuple[Any, bool]] = []
-        if t == 2:
-            kids = [(x[1], False)]
-        elif t == 3:
-            kids = [(x[2], False)]
-        elif t == 4:
-            kids = [(x[2], False), (x[3], False)]
-        elif t == 5:
-            kids = [(v, False) for v in x[2]]
-        elif t in (6, 7, 8):
-            kids = [(v, False) for v in x[1]]
-        elif t == 9:
-            kids = [(k, False) for k, _ in x[1] if k is not None] + [(v, False) for _, v in x[1]]
-        elif t == 10:
-            kids = [(x[1], False), (x[2], True)]
-        elif t == 11:
-            kids = [(x[1], False)] + [(a, False) for a in x[2]] + [(v, False) for _, v in x[3]]
-        elif t == 12:
-            kids = [(x[1], False)]
-        elif t == 13:
-            g = x[1]
-            if g == 0:
-                kids = [(x[3], False)] + [(c, False) for c in x[4]]
-            elif g == 1:
-                kids = [(x[2], False), (x[3], False), (x[4], False)]
-            elif g == 2:
-                kids = [(x[3], False)]
-            elif g == 3:
-                kids = [(b, False) for b in x[2:5] if b is not None]
-            elif g in (4, 12):
-                kids = [(x[2], False)]
-            elif g == 5:
-                kids = [(x[2], False)] if x[2] is not None else []
-            elif g == 6:
-                kids = [(x[3], False)]
-            elif g in (7, 8, 10):
-                kids = [(x[2], False), (x[3], False), (x[4], False)] + [(i, False) for i in x[5]]
-            elif g == 9:
-                kids = [(p, False) for p in x[2] if not isinstance(p, str)]
-            elif g == 11:
-                kids = [(x[2], False), (x[3], False), (x[4], False), (x[5], False)]
-        stack.extend(reversed(kids))
+        stack.extend(reversed(children(x)))
+
+
+def depth(e: Any) -> int:
+    ks = children(e)
+    return 1 + max(depth(k) for k, _ in ks) if ks else (0 if e[0] in (0, 1) else 1)
 
 
 def rewrite(e: Any, f: Any, in_slice: bool = False) -> Any:
@@ -681,58 +690,6 @@ class Check(PropertyCheck):
         if data.get('kind') == 'correspondence':
             print('(this replay file records a model/implementation disagreement; expected = model, observed = implementation)')
         return 1 if v else 0
-
-
-def depth(e: Any) -> int:
-    t = e[0]
-    if t in (0, 1):
-        return 0
-    kids = [x for x, _ in itertools.islice(walk(e), 1, None)]
-    # cheap: depth via recursion on direct children only
-    def d(x: Any) -> int:
-        if x[0] in (0, 1):
-            return 0
-        sub = [y for y in direct_children(x)]
-        return 1 + (max(d(y) for y in sub) if sub else 0)
-    return d(e)
-
-
-def direct_children(x: Any) -> List[Any]:
-    t = x[0]
-    if t == 2:
-        return [x[1]]
-    if t == 3:
-        return [x[2]]
-    if t == 4:
-        return [x[2], x[3]]
-    if t == 5:
-        return list(x[2])
-    if t in (6, 7, 8):
-        return list(x[1])
-    if t == 9:
-        return [k for k, _ in x[1] if k is not None] + [v for _, v in x[1]]
-    if t == 10:
-        return [x[1], x[2]]
-    if t == 11:
-        return [x[1]] + list(x[2]) + [v for _, v in x[3]]
-    if t == 12:
-        return [x[1]]
-    if t == 13:
-        return [y for y in flatten_generic(x)]
-    return []
-
-
-def flatten_generic(x: Any) -> List[Any]:
-    out = []
-    for y in x[2:]:
-        if isinstance(y, list) and y and isinstance(y[0], int) and not isinstance(y[0], bool) and 0 <= y[0] <= 13 and \
-                (len(y) == 1 or not all(isinstance(z, int) for z in y)):
-            out.append(y)
-        elif isinstance(y, list):
-            for z in y:
-                if isinstance(z, list) and z and isinstance(z[0], int) and (len(z) > 1) and not all(isinstance(w, int) for w in z):
-                    out.append(z)
-    return out
 
 
 def to_json_tree(m: Any) -> Any:
